@@ -63,6 +63,12 @@ fn main() {
             });
             e3o::run(seed, shard, nshards, a.u64("cases", if thorough { 12 } else { 1 }), a.u64("max_faults", if thorough { 60 } else { 12 }) as usize, a.u64("parallel", 4) as usize, only, &mut rep);
         }
+        "e3cfg" => {
+            let only = replay.as_ref().and_then(|r| r.get("case")).and_then(|c| c.as_u64());
+            if shard == 0 {
+                e3cfg::run(seed, shard, a.u64("cases", if thorough { 400 } else { 60 }), only, &mut rep);
+            }
+        }
         "e1c" => {
             let only = replay.as_ref().map(|r| {
                 let f = &r["fault"];
